@@ -25,6 +25,8 @@ def encode(c, enc):
         return SC.encode(c, enc)
     if c["op"] == "strip":
         return "strip " + enc.s(c["s"])
+    if c.get("report") == "error" and c["op"] in ("iinsert", "pinsert"):
+        return "skip"      # oracle-only: the model's insert has no reporting mode (see report_error_inserts)
     return tierops.encode(c, enc)
 
 
@@ -41,6 +43,8 @@ def render(c, r, enc):
         return SC.render(c, r, enc)
     if c["op"] == "strip":
         return "ok " + enc.s(r[1])
+    if c.get("report") == "error" and c["op"] in ("iinsert", "pinsert"):
+        return "ok skip"
     return tierops.render(c, r, enc)
 
 
@@ -60,6 +64,11 @@ def oracle(c, r):
     if r[0] == "err":
         if not r[2]:
             return Failure(dict(sig, clause="praatio-error", exc=r[1]), f"{op} raised the built-in {r[1]} instead of a praatio error")
+        # the receiver of a mutator that raised is still a tier the caller holds: it must be well-formed too
+        if len(r) > 3 and isinstance(r[3], dict):
+            probs = T.wf_problems(r[3])
+            if probs:
+                return Failure(dict(sig, clause="well-formed-after-raise"), f"{op} raised {r[1]} and left an ill-formed tier behind: {probs[0]}")
         return None
     res = r[1]
     if not isinstance(res, dict):
@@ -287,7 +296,27 @@ def strip_units(rnd, tier):
             yield {"op": "strip", "s": chr(cp) + "k" + chr(cp), "grid": True}
 
 
+def report_error_inserts(rnd, n):
+    """insertEntry with collisionReportingMode='error' (accepted by validateOption; the signature documents silence|warning
+    only): a colliding 'replace'/'merge' is applied and THEN reported by raising CollisionError - whatever one thinks of
+    that, the tier the caller is left with must be well-formed (round 4, C05-mutG: the report moved before sort()).
+    Oracle-only (the model's insert has no reporting mode) and kept out of `histories`, which C13 reuses."""
+    import props.C11 as C11
+    for _ in range(n):
+        domain = rnd.choice(["dec", "grid64"])
+        t = T.gen_itier(rnd, domain, nmax=4) if rnd.random() < 0.5 else T.gen_ptier(rnd, domain, nmax=4)
+        if not t["es"]:
+            continue
+        if t["k"] == "P":
+            entry = [rnd.choice(t["es"])[0], "n"]        # an occupied time, preferably not the last one
+        else:
+            entry = C11.gen_entry(rnd, t, domain)
+        yield {"op": ("i" if t["k"] == "I" else "p") + "insert", "tier": t, "entry": entry, "mode": rnd.choice(["replace", "merge", "error"]),
+               "report": "error", "grid": False}
+
+
 def gen(rnd, tier):
+    yield from report_error_inserts(rnd, 3000 if tier == "thorough" else 400)
     yield from strip_units(rnd, tier)
     yield from SC.gen(rnd, 3000 if tier == "thorough" else 300)
     if tier == "thorough":
